@@ -1,9 +1,12 @@
 CONSTANTS
   MaxChildren = 2
-  MaxTemps = 2
-  QMax = 10
+  MaxTemps = 1
+  QMax = 9
   MaxPending = 1
+  CfgSet <- ListenCfgs
+  Hows <- FewHows
 SPECIFICATION Spec
+VIEW NoOut
 INVARIANTS TypeOK Restored ExitAlwaysPossible CommandOwnsTerminal RawOnlyWhileReading OnlyConfigured QBound
 CONSTRAINT PendingBound
 CHECK_DEADLOCK FALSE
